@@ -143,14 +143,14 @@ _CPUS = ["0", "0-1", "0-2", "0-4", None]   # taskset masks: runtime.NumCPU() (= 
 RULES["C08"] = (_STREAM + "each stream is judged by the sequential workflow (full reads) and then by its parallel twin through a reader that delays individual Read calls "
                 "(none / Gosched x k / sleep 50-2000 us, drawn plan), with GOMAXPROCS drawn from {1,2,4,16} and the worker count varied by running shards under taskset with 1, 2, 3, 5 and all CPUs; "
                 "a second binary built with -race repeats a reduced budget (any race report = violation). oracle: verdicts equal; if false, both errors name the same registry item; nil error iff true. "
-                "non-trivial: sequential verdict true, or false for a reason other than 'item passes on no sample'. distinct: hash of the case JSON.")
+                "non-trivial: sequential verdict true, or false for a reason other than 'item passes on no sample'. distinct: hash of the case JSON. One deterministic shard feeds the periodic workflows through an OS pipe (a source with read deadlines) whose producer pauses 0 s / 0.2 s / 12 s before the last sample.")
 PROPS["C08"] = {
     "level": "exploration",
     "quick": [S("TestC08", 70, mode="period", cpus=c, floor=30) for c in _CPUS] + [S("TestC08", 70, mode="period", floor=30)]
              + [S("TestC08", 25, mode="period", race=True, floor=10, weight=3)]
              + [S("TestC08", 1, mode="poweron", floor=1, weight=3, env={"VERIF_TARGETS": "mixed"}), S("TestC08", 1, mode="poweron", floor=1, weight=3, env={"VERIF_TARGETS": "mixed"}),
-                S("TestC08", 1, mode="poweron", cpus="0-2", floor=1, weight=3, env={"VERIF_TARGETS": "one-bad"}), S("TestC08", 1, mode="factory", floor=1, weight=4, env={"VERIF_TARGETS": "one-bad"})],
-    "thorough": [S("TestC08", 4000, mode="period", cpus=c, floor=1000, timeout=3400) for c in _CPUS] + shards(3, "TestC08", 4000, mode="period", floor=1000, timeout=3400)
+                S("TestC08", 1, mode="poweron", cpus="0-2", floor=1, weight=3, env={"VERIF_TARGETS": "one-bad"}), S("TestC08", 1, mode="factory", floor=1, weight=4, env={"VERIF_TARGETS": "one-bad"}), S("TestC08SlowPipe", floor=3)],
+    "thorough": [S("TestC08SlowPipe", floor=3)] + [S("TestC08", 4000, mode="period", cpus=c, floor=1000, timeout=3400) for c in _CPUS] + shards(3, "TestC08", 4000, mode="period", floor=1000, timeout=3400)
              + shards(2, "TestC08", 800, mode="period", race=True, floor=200, weight=2, timeout=3400)
              + [S("TestC08", 12, mode="poweron", cpus=c, floor=4, weight=3, timeout=3400) for c in ("0-1", "0-4", None, None)]
              + [S("TestC08", 5, mode="factory", floor=2, weight=4, timeout=3400), S("TestC08", 1, mode="poweron", race=True, floor=1, weight=4, timeout=3400)],
@@ -268,7 +268,7 @@ PROPS["C18"] = {
     "assumptions": ["interleavings are sampled (barrier release, GOMAXPROCS), not enumerated", "the race detector only sees races on executed paths"],
 }
 
-RULES["C13"] = ("a directory tree in a scratch dir: 1..40 sample files (2*10^4 scale; 1..3 at 10^6; 1..4 short files for the 10^8 worker), suffix .bin/.dat, base names from [a-zA-Z0-9_-] and, one in four, from characters special to formatters/shells/CSV readers such as '%', space, quotes, brackets, non-ASCII (duplicates across sub-directories allowed), nesting depth 0..3, "
+RULES["C13"] = ("a directory tree in a scratch dir: 1..40 sample files (2*10^4 scale; 1..3 at 10^6; 1..4 short files for the 10^8 worker), suffix .bin/.dat, base names from [a-zA-Z0-9_-] and, one in four, from characters special to formatters/shells/CSV readers such as '%', space, quotes, brackets, non-ASCII (duplicates across sub-directories allowed), nesting depth 0..3 (one directory name in four paths is not valid UTF-8), "
                 "0..5 non-sample files of other suffixes, sometimes a directory whose name ends in .bin/.dat; contents uniform/biased/markov/periodic/constant/sparse/run-list; -n in 1..64, GOMAXPROCS in {1,2,16}; the input directory is given as an absolute path, as 'in', './in', '../<dir>/in', with a trailing slash, or is a directory whose name starts with a dot; in a third of the runs the -o path already holds an older report (1 byte .. 400 KB). The built rddetector binary is run "
                 "end to end at the 2*10^4 and 10^6 scales; worker_1E8 is driven directly through a go test -overlay shim on 100000..200000-bit files; main's scale switch for 10^8 is observed on sparse 12.5 MB files (header line read, process killed). "
                 "One deterministic shard runs the 10^6 scale with 2 and 3 workers on 13 / 18 files of which two take ten times longer than the rest (results finish far out of order). One deterministic shard processes 1100 files (3000 thorough) in nested directories with 3 and with 64 workers under the usual descriptor limit of 1024. Some shards pin 'one worker, >= 2-3 files' (a worker then handles consecutive files) and some run a -race build of the binary / shim (a race report is a violation). oracle: exit status 0 within the budget (a stuck child gets SIGQUIT: all goroutines blocked = violation, merely slow = inconclusive); report = the scale's header + exactly one row per sample file (multiset on base names, rows of equal name matched by values); "
@@ -296,7 +296,7 @@ PROPS["C13"] = {
 }
 
 RULES["C20"] = ("runs of the built rdgen binary from a fresh scratch working directory: s in 1..40 (300 thorough), n in {20000, 10^6, 8*k for k in 1..10000} (two 10^8 runs in thorough; three deterministic runs with 1000..3000 files (x5 thorough) under the usual descriptor limit of 1024), output directory absent (documented default target/data) / relative / reused (a quarter of the cases first run rdgen into the same directory with another s and n: the files must end up with exactly the new size) / "
-                "./x/b/c not existing / absolute / pre-existing with foreign files / path with '..'; a third of the directory names contain spaces, '%', dots, dashes, '+=,@#~' or non-ASCII characters; NumCPU (= writer goroutines) 1, 3 or 16 via taskset, GOMAXPROCS 0/1/2. oracle: exit 0; a census of the whole scratch directory finds exactly random0.bin..random(s-1).bin "
+                "./x/b/c not existing / absolute / pre-existing with foreign files / path with '..'; the requested directory may already exist as a symbolic link to a directory; a third of the directory names contain spaces, '%', dots, dashes, '+=,@#~' or non-ASCII characters; NumCPU (= writer goroutines) 1, 3 or 16 via taskset, GOMAXPROCS 0/1/2. oracle: exit 0; a census of the whole scratch directory finds exactly random0.bin..random(s-1).bin "
                 "in the requested directory (foreign files untouched, nothing anywhere else), each n/8 bytes, pairwise different and not all-zero when n >= 128; for n in {20000,10^6,10^8} the detector's counting pass (toBeTestFileNum through the shim) "
                 "reports (s, n). non-trivial: -o given and s > 1. distinct: hash of the case JSON.")
 PROPS["C20"] = {
